@@ -253,7 +253,10 @@ Section Model.
   Inductive outcome :=
     | ORender (r : option canvas) | ORows (r : option Z) | ODone | OSkipped.
 
-  (* the collector may free a canvas only when no live canvas references it *)
+  (* the collector may free ANY live canvas: that a canvas keeps the canvases it displays alive is not assumed
+     (CanvasCache.cleanup invalidates the dependants of a widget whose last canvas went away) *)
+  Definition alive (st : state) (c : cid) : bool := existsb (fun cv => c_id cv =? c) (heap st).
+  (* what CPython's reference counting frees: a canvas no live canvas references (used by [sweep] below) *)
   Definition collectable (st : state) (c : cid) : bool :=
     existsb (fun cv => c_id cv =? c) (heap st)
     && forallb (fun cv => negb (existsb (Z.eqb c) (c_children cv))) (heap st).
@@ -275,7 +278,7 @@ Section Model.
       | None => (State (cc st) (heap st) (next st) vr, OSkipped)   (* never: Proofs, invalidate_enough_fuel *)
       end
     | Collect c =>
-      if collectable st c
+      if alive st c
       then (State (cleanup (cc st) c) (remove_canvas (heap st) c) (next st) (ver st), ODone)
       else (st, OSkipped)
     | Clear => (State empty_cache (heap st) (next st) (ver st), ODone)
